@@ -11,6 +11,7 @@ import (
 	"flag"
 	"fmt"
 	"go/version"
+	"io"
 	"io/fs"
 	"log"
 	"net/http"
@@ -309,9 +310,13 @@ func readMergedReports(ctx context.Context, fileName string, s *storage.API) ([]
 
 	var reports []telemetry.Report
 	dec := json.NewDecoder(in) // one JSON value per line, of any length
-	for dec.More() {
+	for {
 		var report telemetry.Report
-		if err := dec.Decode(&report); err != nil {
+		// Decode until io.EOF: dec.More reports false on a read error
+		// too, which would silently end the data early.
+		if err := dec.Decode(&report); err == io.EOF {
+			break
+		} else if err != nil {
 			return nil, err
 		}
 		reports = append(reports, report)
